@@ -68,28 +68,68 @@ func (paramLogger) MutateOperationParameters(ctx context.Context, p *graphql.Raw
 type liveServer struct {
 	ts    *httptest.Server
 	store sync.Map // X-Verif-Id -> *reqRec
+	cfg   string
+	// the ResponseHeaders map each configurable transport was constructed with
+	// (the harness' own objects: it may look at them afterwards)
+	cfgMaps map[string]map[string][]string
 }
 
-func newHandler() *handler.Server {
+// cfgHeaders are the server configurations of the model (CfgMap in
+// spec/HttpState.tla): no ResponseHeaders, headers that do not name a
+// Content-Type, headers with an explicit Content-Type.
+func cfgHeaders(name string) map[string][]string {
+	switch name {
+	case "xsb":
+		return map[string][]string{"X-Served-By": {"c07"}, "Vary": {"Accept"}}
+	case "ct":
+		return map[string][]string{"Content-Type": {"application/json; charset=utf-8"}, "X-Served-By": {"c07"}}
+	}
+	return nil
+}
+
+var confTr = []string{"GET", "POST", "GRAPHQL", "FORM", "MULTIPART"}
+
+func newHandler(ls *liveServer) *handler.Server {
+	ls.cfgMaps = map[string]map[string][]string{}
+	for _, t := range confTr {
+		ls.cfgMaps[t] = cfgHeaders(ls.cfg) // one map object per transport
+	}
 	srv := handler.New(executableSchema())
 	srv.AddTransport(transport.Websocket{})
 	srv.AddTransport(transport.Options{})
 	srv.AddTransport(transport.SSE{})
 	srv.AddTransport(transport.MultipartMixed{})
-	srv.AddTransport(transport.GET{})
-	srv.AddTransport(transport.POST{})
-	srv.AddTransport(transport.GRAPHQL{})
-	srv.AddTransport(transport.UrlEncodedForm{})
-	srv.AddTransport(transport.MultipartForm{})
+	srv.AddTransport(transport.GET{ResponseHeaders: ls.cfgMaps["GET"]})
+	srv.AddTransport(transport.POST{ResponseHeaders: ls.cfgMaps["POST"]})
+	srv.AddTransport(transport.GRAPHQL{ResponseHeaders: ls.cfgMaps["GRAPHQL"]})
+	srv.AddTransport(transport.UrlEncodedForm{ResponseHeaders: ls.cfgMaps["FORM"]})
+	srv.AddTransport(transport.MultipartForm{ResponseHeaders: ls.cfgMaps["MULTIPART"]})
 	srv.SetQueryCache(lru.New[*ast.QueryDocument](100))
 	srv.Use(paramLogger{})
 	srv.Use(extension.AutomaticPersistedQuery{Cache: lru.New[string](100)})
 	return srv
 }
 
-func startServer() *liveServer {
-	ls := &liveServer{}
-	srv := newHandler()
+func startServer() *liveServer { return startServerCfg("") }
+
+// configWritten names the transports whose configured ResponseHeaders map no
+// longer holds what the server was constructed with.
+func (ls *liveServer) configWritten() []string {
+	var out []string
+	for _, t := range confTr {
+		if canon(ls.cfgMaps[t]) != canon(cfgHeaders(ls.cfg)) {
+			out = append(out, t+": "+canon(ls.cfgMaps[t]))
+		}
+	}
+	return out
+}
+
+func startServerCfg(cfg string) *liveServer {
+	if cfg == "none" {
+		cfg = ""
+	}
+	ls := &liveServer{cfg: cfg}
+	srv := newHandler(ls)
 	h := http.HandlerFunc(func(w http.ResponseWriter, r *http.Request) {
 		rec := &reqRec{done: make(chan struct{})}
 		if id := r.Header.Get("X-Verif-Id"); id != "" {
